@@ -109,8 +109,12 @@ fn gen_quad9(r: &mut Rng) -> (QuadBez, &'static str) {
             // exact midpoint of small-integer end points plus a bump far below rounding size relative to
             // the chord, but representable next to the zero coordinate of the midpoint: c3 = |d1|^2 is
             // subnormal or the scaled coefficients overflow (the non-finite tests of the solvers)
-            let a = Point::new(r.range_i(-4, 4) as f64, r.range_i(-4, 4) as f64);
-            let b = Point::new(-a.x, -a.y) ;
+            let mut a = Point::new(r.range_i(-4, 4) as f64, r.range_i(-4, 4) as f64);
+            if a == Point::ZERO {
+                // (a curve of size 1e-160 would only test the underflow of squared lengths)
+                a = Point::new(3.0, -1.0);
+            }
+            let b = Point::new(-a.x, -a.y);
             let e = *r.pick(&[1e-160, 1e-155, 1e-120, 1e-100, 1e-60, 1e-30]) * if r.bool() { 1.0 } else { -1.0 };
             let m = if r.bool() { Point::new(e, 0.0) } else { Point::new(e, -e) };
             (QuadBez::new(a, m, b), "midpoint-tiny-bump")
@@ -687,8 +691,11 @@ fn domain_acc(s: &PathSeg, acc: f64) -> f64 {
 /// the extent (hairpins, near-cusps), with a factor ~10 for the solver's own arithmetic. Losses beyond it
 /// are reported; they are filed under a known class only when `solve_cubic` is demonstrably the cause.
 const C_ROUND: f64 = 4e-9;
+/// ... plus 1e-150: `distance_sq` (and every squared length in the computation) underflows for
+/// lengths below the square root of the smallest normal binary64 number (1.5e-154).
+const UNDERFLOW_FLOOR: f64 = 1e-150;
 fn rounding_allowance(s: &PathSeg, p: Point) -> f64 {
-    C_ROUND * scale_of(s, p).max(extent_of(s))
+    C_ROUND * scale_of(s, p).max(extent_of(s)) + UNDERFLOW_FLOOR
 }
 
 /// the leading coefficients of the critical-point cubic are of rounding size relative to the
